@@ -49,6 +49,38 @@ class Body:
     def __repr__(self):
         return "Body(%s)" % self.ident()
 
+class PlumbingBody:
+    """generic MIR of a pure plumbing function of core (Option / Result combinators, `?`), exported by the driver"""
+    def __init__(self, key, j):
+        self.j = j; self.key = key
+        self.path = norm_path(j["def"])
+        self.kind = "Plumbing"
+        self.mir = j["mir"]; self.promoted = []
+        self.generics = list(j.get("generics", []))
+        self.reachable = False; self.pub = False; self.is_test = False
+        self.trait = None; self.trait_args = []; self.self_ty = None; self.name = self.path.split("::")[-1]
+        self.inputs = []; self.output = None; self.span = ""; self.ctx = {}
+    def ident(self):
+        return "core:" + self.path
+    def __repr__(self):
+        return "PlumbingBody(%s)" % self.path
+
+SUPPORTED_STMT = ("lhs", "intrinsic")
+def plumbing_supported(mir):
+    """only bodies made of constructs the evaluator models are read through (anything else stays an opaque call)"""
+    for blk in mir["blocks"]:
+        if blk.get("cleanup"):
+            continue
+        for s_ in blk["s"]:
+            if not any(k in s_ for k in SUPPORTED_STMT):
+                return False
+            rv = s_.get("rv")
+            if rv is not None and not any(k in rv for k in ("use", "ref", "agg", "discr", "bin", "un", "cast")):
+                return False
+        if blk["t"]["k"] not in ("goto", "drop", "ret", "call", "switch", "unreachable", "assert"):
+            return False
+    return True
+
 class Facts:
     def __init__(self, path):
         self.raw = json.load(open(path))
@@ -62,6 +94,16 @@ class Facts:
         self.consts = self.raw["consts"]
         self.const_by_key = {c["key"]: c for c in self.consts}
         self.foreign = self.raw["foreign"]
+        self.plumbing = {}
+        for k, v in self.foreign.items():
+            if k.startswith("def:") and "mir" in v and plumbing_supported(v["mir"]):
+                pb = PlumbingBody(k, v)
+                self.plumbing[pb.path] = pb
+        # closures by the source position their type names
+        self.closure_at = {}
+        for b in self.bodies:
+            if b.kind == "Closure":
+                self.closure_at["KEY:" + b.key.replace("{", "(").replace("}", ")")] = b
         self.impls = self.raw["impls"]
         self.structs = self.raw["structs"]
         self.ast = self.raw.get("ast") or {}
